@@ -40,7 +40,11 @@ import (
 const c09Chain = "eth-main"
 const c09ERC20 = "0x00000000000000000000000000000000000000E1"
 
-var c09Multiplicators = []string{"1.1", "-1", "-0.000000000000000001", "0", "1000000000000000000000000000000", "340282366920938463463374607431768211455", "0.000000000000000001", "18446744073709551616"}
+var c09Multiplicators = []string{"1.1", "-1", "-0.000000000000000001", "0", "1000000000000000000000000000000", "340282366920938463463374607431768211455", "0.000000000000000001", "18446744073709551616",
+	// the extremes a LegacyDec survives (un)marshalling with: +-(2^256 - 10^-18), and -2^255
+	"115792089237316195423570985008687907853269984665640564039457584007913129639935.999999999999999999",
+	"-115792089237316195423570985008687907853269984665640564039457584007913129639935.999999999999999999",
+	"-57896044618658097711785492504343953926634992332820282019728792003956564819968", "unset"}
 
 func c09GovContent(c *chain.Chain, content govv1beta1.Content, h govv1beta1.Handler) (err error) {
 	defer func() {
@@ -121,8 +125,12 @@ func TestC09_BlocksNeverAbort(t *testing.T) {
 			"relayerFee": func(t *rapid.T) {
 				v := c.Vals[rapid.IntRange(0, n-1).Draw(t, "val")]
 				m := rapid.SampledFrom(c09Multiplicators).Draw(t, "mult")
+				var dec sdkmath.LegacyDec // "unset": the field is absent from the transaction
+				if m != "unset" {
+					dec = sdkmath.LegacyMustNewDecFromStr(m)
+				}
 				oks := block(t, "relayerFee", c.MustSign(v.Actor, &treasurytypes.MsgUpsertRelayerFee{Metadata: chain.MD(v.Actor), FeeSetting: &treasurytypes.RelayerFeeSetting{ValAddress: v.Val().String(),
-					Fees: []treasurytypes.RelayerFeeSetting_FeeSetting{{ChainReferenceId: c09Chain, Multiplicator: sdkmath.LegacyMustNewDecFromStr(m)}}}}))
+					Fees: []treasurytypes.RelayerFeeSetting_FeeSetting{{ChainReferenceId: c09Chain, Multiplicator: dec}}}}))
 				log = append(log, fmt.Sprintf("h%d:fee(v%d,%s)=%v", c.H-1, v.Index, m, oks[0]))
 				hostile(oks[0] && m != "1.1")
 			},
